@@ -99,6 +99,8 @@ class Sched(object):
         self.grain = grain
         self.trace = []          # (choice, n_enabled, stay_possible)
         self.tids = []           # thread id run after every scheduling decision
+        self.picks = []          # (thread id, sorted ids of the enabled threads)
+        self.queues = []
         self.main = TCtl(0)
         self.main.thread = threading.current_thread()
         self.threads = [self.main]
@@ -145,6 +147,7 @@ class Sched(object):
         else:
             nxt = cands[self._choose(len(cands), stay, cands)]
         self.tids.append(nxt.tid)
+        self.picks.append((nxt.tid, sorted(t.tid for t in cands)))
         return nxt
 
     # -- abort / deadlock
@@ -287,6 +290,8 @@ class SQueue(object):
         self.items = collections.deque()
         self.unfinished = 0
         self.n_put = 0
+        if CUR is not None:
+            CUR.queues.append(self)
 
     def _room(self):
         return self.maxsize <= 0 or len(self.items) < self.maxsize
@@ -620,6 +625,9 @@ def execute(case, schedule=None, policy=None, rnd=None):
         res.fired = tracker.fired
         res.trace = sched.trace
         res.tids = sched.tids
+        res.picks = sched.picks
+        res.n_put = sum(q.n_put for q in sched.queues)
+        res.src_opens = [f.path for f in tracker.files if f.side == "src"]
         res.n_threads = len(sched.threads) - 1
         res.n_files = len(tracker.files)
         res.worker_io = sum(v for k, v in tracker.io_by_tid.items() if k != 0)
@@ -901,6 +909,9 @@ class Stats(object):
         self.capped_cases = 0
         self.dfs_cases = []
         self.samples = []
+        self.producer_error_replaced = 0
+        self.producer_error_replaced_example = None
+        self.traces = []          # observed runs to replay on the Coq model
         self.violations = []      # (case, schedule, kinds)
 
     def merge(self, o):
@@ -912,11 +923,14 @@ class Stats(object):
         for name in ("deadlocks", "timeouts", "fault_fired_in_worker", "fault_fired_in_producer",
                      "fault_in_last_task", "producer_blocked_runs", "worker_waited_runs",
                      "more_files_than_slots_runs", "empty_tree_runs", "empty_file_runs",
-                     "exhaustive_cases", "capped_cases"):
+                     "exhaustive_cases", "capped_cases", "producer_error_replaced"):
             setattr(self, name, getattr(self, name) + getattr(o, name))
         self.max_choice_points = max(self.max_choice_points, o.max_choice_points)
         self.dfs_cases.extend(o.dfs_cases)
         self.samples.extend(o.samples)
+        if self.producer_error_replaced_example is None:
+            self.producer_error_replaced_example = o.producer_error_replaced_example
+        self.traces.extend(o.traces)
         self.violations.extend(o.violations)
 
 
@@ -942,6 +956,16 @@ def record(st, phase, case, res, viol):
             st.fault_fired_in_producer += 1
         if case["tree"]["files"] and f["path"] == case["tree"]["files"][-1][0]:
             st.fault_in_last_task += 1
+    if (res.fired is not None and res.fired["tid"] == 0 and res.exc is not None
+            and res.exc is not res.fired["exc"]):
+        # not part of the property (the call does raise): the error of the producer's own
+        # openbin is replaced by another exception on the way out of Copier.__exit__
+        st.producer_error_replaced += 1
+        if st.producer_error_replaced_example is None:
+            st.producer_error_replaced_example = dict(
+                function=case["function"], workers=case["workers"], tree=case["tree"],
+                preserve_time=case["preserve_time"], fault=f, schedule=realized(res),
+                injected=repr(res.fired["exc"]), raised=repr(res.exc))
     if res.blocked_put:
         st.producer_blocked_runs += 1
     if res.blocked_get:
@@ -958,6 +982,11 @@ def record(st, phase, case, res, viol):
     if res.n_threads >= 1 and res.closed_by_worker >= 1 and len(res.trace) >= 1:
         h = hashlib.sha1((case_key(case) + "|" + ",".join(map(str, res.tids))).encode("utf8"))
         st.distinct.add(h.digest()[:10])
+    if (not viol and case["grain"] == "io" and res.status != "abort" and len(st.traces) < 4
+            and (f is None or f["op"] != "open") and st.evaluations % 53 == 7):
+        tr = model_trace(case, res)
+        if tr is not None:
+            st.traces.append(tr)
     if viol:
         st.violations.append((case, realized(res), [k for k, _d in viol]))
     elif len(st.samples) < 2 and res.n_threads and st.evaluations % 97 == 50:
@@ -966,6 +995,111 @@ def record(st, phase, case, res, viol):
                                schedule=realized(res)[:60], thread_trace=res.tids[:60],
                                outcome=out, files_opened=res.n_files, all_closed=not res.unclosed,
                                phase=phase))
+
+
+def dst_of(case, p):
+    """Destination path of the source file p."""
+    if case["function"] != "copy_dir":
+        return p
+    sp = fs.path.abspath(fs.path.normpath(case["src_path"]))
+    if not fs.path.isbase(sp, p):
+        return None
+    return fs.path.combine(fs.path.abspath(fs.path.normpath(case["dst_path"])),
+                           fs.path.frombase(sp, p))
+
+
+def model_trace(case, res):
+    """The observation of one run in the vocabulary of coq/Conc/Copier.v."""
+    sizes = dict((p, sz) for p, sz in case["tree"]["files"])
+    paths = res.src_opens
+    if len(set(paths)) != len(paths) or any(p not in sizes for p in paths):
+        return None
+    f = case["fault"] if res.fired is not None else None     # armed but never reached = none
+    if f is not None and f["side"] == "dst":
+        hit = [p for p in paths if dst_of(case, p) == f["path"]]
+        if len(hit) != 1:
+            return None
+        f = dict(f, path=hit[0])
+    files = []
+    chunk = case["chunk"]
+    for idx, p in enumerate(paths):
+        sz = sizes[p]
+        k = 0 if sz == 0 else (1 if chunk is None else -(-sz // chunk))
+        data = [False] * (2 * k + 1)        # read, write, read, write, ..., read (EOF)
+        fcs = fcd = False
+        if f is not None and f["path"] == p:
+            if f["op"] == "read" and f["side"] == "src" and 2 * f["nth"] < len(data):
+                data[2 * f["nth"]] = True
+            elif f["op"] == "write" and f["side"] == "dst" and 2 * f["nth"] + 1 < len(data):
+                data[2 * f["nth"] + 1] = True
+            elif f["op"] == "close" and f["nth"] == 0:
+                if f["side"] == "src":
+                    fcs = True
+                else:
+                    fcd = True
+        files.append((idx, data, fcs, fcd))
+    failed = []
+    if f is not None:
+        if f["path"] not in paths:
+            return None
+        failed = [paths.index(f["path"])]
+    return dict(N=res.n_threads, files=files, picks=res.picks, raised=res.exc is not None,
+                failed=failed, nput=res.n_put,
+                case=dict(function=case["function"], workers=case["workers"], tree=case["tree"],
+                          chunk=chunk, fault=case["fault"], preserve_time=case["preserve_time"],
+                          dst_pre=case["dst_pre"], copy_if_newer=case["copy_if_newer"],
+                          src_path=case["src_path"], dst_path=case["dst_path"],
+                          backend=case["backend"], thread_safe=case["thread_safe"], grain="io",
+                          schedule=realized(res)))
+
+
+def coq_bool(b):
+    return "true" if b else "false"
+
+
+def coq_list(items):
+    return "[" + "; ".join(items) + "]"
+
+
+def model_check(traces, tag="C09"):
+    """Replay observed runs on the Gallina model inside Coq (vm_compute).
+    Returns (number checked, list of (trace, code))."""
+    import re
+    import subprocess
+    if not traces:
+        return 0, []
+    os.makedirs(common.WORK, exist_ok=True)
+    vfile = os.path.join(common.WORK, "traces_%s_%d.v" % (tag, os.getpid()))
+    rows = []
+    for t in traces:
+        files = coq_list(["mkFile %d %s %s %s" % (i, coq_list([coq_bool(b) for b in d]),
+                                                    coq_bool(cs), coq_bool(cd))
+                          for (i, d, cs, cd) in t["files"]])
+        tr = coq_list(["(%d, %s)" % (tid, coq_list([str(e) for e in en]))
+                       for (tid, en) in t["picks"]])
+        rows.append("  check_trace %d %s %s %s %s %d" % (
+            t["N"], files, tr, coq_bool(t["raised"]), coq_list([str(x) for x in t["failed"]]),
+            t["nput"]))
+    with open(vfile, "w") as fh:
+        fh.write("From Coq Require Import List Arith Bool.\nImport ListNotations.\n"
+                 "From PyFS Require Import Conc.Copier.\n")
+        fh.write("Definition verdicts : list nat := [\n" + ";\n".join(rows) + "].\n")
+        fh.write("Eval vm_compute in verdicts.\n")
+    p = subprocess.run(["timeout", "600", "coqc", "-Q", common.COQ, "PyFS", vfile],
+                       cwd=common.WORK, stdout=subprocess.PIPE, stderr=subprocess.STDOUT,
+                       universal_newlines=True)
+    for ext in (".vo", ".glob", ".vok", ".vos", ".v"):
+        try:
+            os.remove(vfile[:-2] + ext)
+        except OSError:
+            pass
+    m = re.search(r"=\s*\[([^\]]*)\]", p.stdout.replace("\n", " "))
+    if not m:
+        return 0, [(None, "coqc failed: " + p.stdout[-1500:])]
+    codes = [int(x.replace("%nat", "")) for x in m.group(1).split(";") if x.strip()]
+    if len(codes) != len(traces):
+        return 0, [(None, "coqc returned %d verdicts for %d traces" % (len(codes), len(traces)))]
+    return len(codes), [(traces[i], codes[i]) for i in range(len(codes)) if codes[i] != 0]
 
 
 def unit_dfs(unit):
@@ -1013,7 +1147,12 @@ def unit_random(unit):
         if rnd.random() < 0.04:
             case["thread_safe"] = False
         if rnd.random() < 0.6:
-            case["fault"] = random_fault(rnd, case["tree"], chunk)
+            flt = random_fault(rnd, case["tree"], chunk)
+            if flt is not None and flt["side"] == "dst":
+                dp = dst_of(norm_case(case), flt["path"])
+                if dp is not None:
+                    flt = dict(flt, path=dp)
+            case["fault"] = flt
         policy = rnd.choice(["uniform", "sticky", "sticky", "producer_first", "workers_first"])
         res = execute(case, [], policy, rnd)
         viol = judge(case, res)
@@ -1290,7 +1429,10 @@ RULE = ("cases = (function in copy_fs/copy_dir/mirror/move_fs, workers 0..4, tre
         "workers first), MemoryFS (and OSFS in a temp dir in the thorough tier). A case is counted "
         "as non-trivial when at least one worker thread was started, at least one tracked file was "
         "closed by a worker thread and the run had at least one scheduling choice; it is distinct "
-        "by (case parameters, exact sequence of thread ids executed).")
+        "by (case parameters, exact sequence of thread ids executed). A sample of the io-granularity "
+        "runs is replayed action by action on the Gallina model (Conc/Copier.v check_trace, "
+        "vm_compute in Coq): same enabled set before every action, same final verdict "
+        "(raised, failed transfers, number of puts, all handles closed, workers stopped).")
 
 ASSUMPTIONS = [
     "CPython GIL: list.append in Copier.add_error and the attribute reads of Copier are atomic; "
@@ -1372,6 +1514,17 @@ def coverage(st, tier):
         dfs_largest_exhausted=sorted(done, key=lambda d: -d["schedules"])[:6],
         dfs_largest_capped=sorted([d for d in dfs_cases if not d["complete"]],
                                   key=lambda d: -d["schedules"])[:4],
+        traces_replayed_on_model=getattr(st, "model_checked", 0),
+        traces_validated_against_impl=getattr(st, "model_checked", 0)
+        - getattr(st, "model_mismatches", 0),
+        model_mismatches=getattr(st, "model_mismatches", 0),
+        informational=dict(
+            producer_open_error_replaced_by_another_exception=st.producer_error_replaced,
+            example=st.producer_error_replaced_example,
+            note="workers > 0 and preserve_time=True: when openbin fails in the producer, "
+                 "Copier.stop() calls copy_modified_time for the task that was never opened and "
+                 "the ResourceNotFound it raises replaces the original error (the call still "
+                 "raises, workers are joined, files are closed: not a C09 violation)"),
         max_choice_points_in_a_run=st.max_choice_points,
         units=getattr(st, "units", None),
         units_skipped_by_time_budget=getattr(st, "units_skipped", 0),
@@ -1393,9 +1546,39 @@ def coverage(st, tier):
                          "= every schedule within the preemption bound); everything else is sampled")
 
 
+def check_model(report, st, limit):
+    """Replay a sample of the observed runs on the Coq model; a disagreement without any
+    violation of the property itself means that the model does not describe /repo."""
+    rnd = random.Random(report.seed + 17)
+    traces = list(st.traces)
+    if len(traces) > limit:
+        traces = rnd.sample(traces, limit)
+    n, bad = model_check(traces)
+    st.model_checked = n
+    st.model_mismatches = len(bad)
+    if bad and not st.violations:
+        t, code = bad[0]
+        meaning = {1: "enabled sets differ before some action (guards / control flow)",
+                   2: "model not final at the end of the observed trace",
+                   3: "raised differs", 4: "set of failed transfers differs",
+                   5: "number of queue.put differs", 6: "model: unclosed handle / live worker"}
+        payload = dict(kind="correspondence-broken",
+                       correspondence="fs._bulk.Copier under the scheduler vs Conc/Copier.v "
+                                      "(check_trace, vm_compute)",
+                       code=code, meaning=meaning.get(code, str(code)), theorem=THEOREM,
+                       mismatches=len(bad), traces_checked=n)
+        if t is not None:
+            payload.update(t["case"])
+            payload["model_files"] = t["files"]
+            payload["observed_picks"] = t["picks"][:400]
+        report.violation(payload, no_input=True)
+    return n, bad
+
+
 def run(report):
     proof = common.preflight(report)
     st = explore(report.tier, report.seed)
+    check_model(report, st, 3000 if report.tier == "thorough" else 500)
     report_violations(report, st)
     return report.finish(proof, coverage(st, report.tier), assumptions=ASSUMPTIONS)
 
